@@ -100,9 +100,13 @@ def r06_1(ctx: Ctx, monotone_only: bool = False):
 
 def _iter_source_attr(e: ast.AST):
     """Strip reversed()/list()/sorted()/tuple()/enumerate()? wrappers; return the core expression."""
-    while isinstance(e, ast.Call) and isinstance(e.func, ast.Name) and e.func.id in ("reversed", "list", "tuple", "sorted", "iter") and e.args:
-        e = e.args[0]
-    return e
+    while True:
+        if isinstance(e, ast.Call) and isinstance(e.func, ast.Name) and e.func.id in ("reversed", "list", "tuple", "sorted", "iter") and e.args:
+            e = e.args[0]
+        elif isinstance(e, ast.Subscript) and isinstance(e.slice, ast.Slice) and e.slice.lower is None and e.slice.upper is None:
+            e = e.value  # x[::-1] / x[:] : the same elements
+        else:
+            return e
 
 
 def r06_2(ctx: Ctx):
